@@ -45,6 +45,7 @@ def setup(ctx):
     ctx.require("monitor", "l2_close_notify_stalls", 20)
     ctx.require("monitor", "complete_slow", 10)
     ctx.require("monitor", "complete_deliveries", 60)
+    ctx.require("monitor", "l1_stalls_with_clock_steps", 60)
     ctx.require("monitor", "l3_cases", 4)
 
 
@@ -73,11 +74,41 @@ STALL_REQS = [
 PEERNAMES = [("192.0.2.7", 40001), ("2001:db8::7", 40001, 0, 0), ("fe80::1%eth0", 40001, 0, 3), None]
 
 
-def l1_stall(ctx, data, label, i, uploads, with_mw, cuts=()):
+class WallClock:
+    """Stands in for the `time` module inside nauyaca.server.protocol while a virtual-time scenario runs: the wall
+    clock advances with the loop's clock (a real machine's clocks move together) and can be STEPPED - an NTP
+    correction, a manual date change, a VM restore - which the loop's monotonic clock never is."""
+
+    def __init__(self, loop, steps=()):
+        self.loop = loop
+        self.steps = sorted(steps)
+
+    def _offset(self):
+        t = self.loop.time()
+        return sum(d for at, d in self.steps if at <= t)
+
+    def time(self):
+        return 1_700_000_000.0 + self.loop.time() + self._offset()
+
+    def monotonic(self):
+        return self.loop.time()
+
+    def perf_counter(self):
+        return self.loop.time()
+
+    def __getattr__(self, name):
+        import time as _t
+
+        return getattr(_t, name)
+
+
+def l1_stall(ctx, data, label, i, uploads, with_mw, cuts=(), clock_steps=()):
     from nauyaca.server import protocol as P
 
     log = []
     loop = new_loop()
+    real_time = P.time
+    P.time = WallClock(loop, clock_steps)
     try:
         h = SpyHandler({"mode": "sync", "outcome": "value", "status": 20, "meta": "text/gemini", "body": "ok\n"}, log, loop)
         mw = SpyMiddleware({"outcome": "allow"}, log, loop) if with_mw else None
@@ -95,6 +126,7 @@ def l1_stall(ctx, data, label, i, uploads, with_mw, cuts=()):
         return {"stream": bytes(t.written), "closing": t.closing, "close_time": t.close_time, "end": end,
                 "handler": len(h.calls), "upload": len(up.calls) if up else 0}
     finally:
+        P.time = real_time
         close_loop(loop)
 
 
@@ -160,6 +192,41 @@ def run_l1(ctx):
                             ctx.violation(f"timeout-after-complete:phase=complete:backend=plain", "complete request answered with a timeout", wit)
                         ctx.count("outcome", f"L1:complete:{obs['stream'][:2].decode('latin-1')}")
                         ctx.case(("L1", label, "complete", uploads, with_mw, obs["stream"][:2]), False)
+
+
+def run_l1_clock_steps(ctx):
+    """The machine's wall clock is stepped while a peer is silent (backwards by an hour, forwards, far into the
+    past, several small steps, just before the deadline): the peer is disconnected when the request timeout has
+    passed on the clock that cannot be stepped - no sooner, no later."""
+    from nauyaca.server import protocol as P
+
+    T = P.REQUEST_TIMEOUT
+    step_sets = [((10.0, -3600.0),), ((10.0, 3600.0),), ((1.0, -1e9),), ((5.0, -40.0), (20.0, -40.0), (40.0, -40.0), (70.0, -40.0)), ((29.9, -3600.0),), ((0.0, -86400.0),), ((15.0, -1.0),), ((15.0, 86400.0 * 365),)]
+    k = 0
+    for data, label, size in REQS:
+        le = data.find(b"\r\n") + 2
+        incomplete = sorted({0, 1, 5, le - 1} | ({le, len(data) - 1} if size else set()))
+        for i in incomplete:
+            if i >= (le + size if size else le):
+                continue
+            for steps in step_sets:
+                k += 1
+                if not ctx.mine(k):
+                    continue
+                obs = l1_stall(ctx, data, label, i, True, False, (), clock_steps=steps)
+                ctx.count("monitor", "l1_stalls_with_clock_steps")
+                wit = {"level": "L1", "request": data, "delivered": i, "wall_clock_steps": [{"at_s": a, "by_s": d} for a, d in steps], "observed": obs}
+                if not obs["closing"] or obs["close_time"] is None:
+                    ctx.violation("held-open:wall-clock-stepped:backend=plain", "the wall clock was stepped while the peer was silent: the loop became quiescent (or ran to its horizon) with the peer still connected", wit)
+                elif obs["close_time"] > T + 1e-6:
+                    ctx.violation("late-close:wall-clock-stepped:backend=plain", f"the wall clock was stepped while the peer was silent: closed at {obs['close_time']}, the request timeout is {T}", wit)
+                elif obs["close_time"] < T - 1e-6:
+                    ctx.violation("early-close:wall-clock-stepped:backend=plain", f"the wall clock was stepped while the peer was silent: closed at {obs['close_time']} < {T}", wit)
+                elif not obs["stream"].startswith(b"40 "):
+                    ctx.violation("no-40:wall-clock-stepped:backend=plain", "silent peer disconnected without a 40 response", wit)
+                else:
+                    ctx.count("outcome", "L1:clock-stepped:timeout-40@30")
+                ctx.case(("L1clock", label, i, steps[0], obs["close_time"], obs["stream"][:2]), True, sample=wit)
 
 
 def run_l1_slow(ctx):
@@ -623,6 +690,7 @@ def run_l3(ctx):
 def run(ctx):
     run_l1(ctx)
     run_l1_slow(ctx)
+    run_l1_clock_steps(ctx)
     run_l1_complete_deliveries(ctx)
     run_l2(ctx)
     if ctx.shard == 0:
